@@ -46,6 +46,23 @@ def run(project: Project, rep, tier: str):
                "the 1-D optimal transport cost of equal-size samples")
     fi = project.function(SW)
     rep.analysed(fi)
+    # SW-DTYPE: 'equals the averaged 1-D transport cost' is a statement about the numbers in the diagram, not their numpy
+    # dtype: projections (floats) must not be stored into an array that inherits the caller's dtype (int diagrams truncate)
+    import ast as _ast
+    from . import dtype_rule
+    mod = SW.rsplit(".", 1)[0]
+    n_fn = 0
+    for q, f2 in sorted(project.functions.items()):
+        if not q.startswith(mod + ".") or not isinstance(f2.node, (_ast.FunctionDef, _ast.AsyncFunctionDef)):
+            continue
+        n_fn += 1
+        for h in dtype_rule.analyse(project, f2):
+            rep.refuted("SW-DTYPE", f2, h["node"],
+                        h["why"] + ": for a diagram given with integer coordinates numpy truncates the stored projections, so "
+                                   "the result is no longer the averaged 1-D transport cost of the projected points",
+                        construct=f"{f2.qualname}: {_ast.unparse(h['node'])[:100]}")
+    rep.discharged("SW-DTYPE", fi, fi.node, f"{n_fn} function(s) of {mod} inspected: no floating-point store into an array "
+                                            f"whose dtype is inherited from the caller's data")
     ps = fi.params
     I = Interp(project, Config(nonempty={("rows", "P"), ("rows", "Q")}, finite_inputs={"P", "Q"}))
     args = {ps[0]: dgm_input("P"), ps[1]: dgm_input("Q")}
